@@ -108,7 +108,7 @@ theorem gc_mem_pushNew (l : List Nat) (u k : Nat) : k ∈ pushNew l u ↔ k ∈ 
       · subst h; exact this
   · simp
 
-theorem nodup_pushNew (l : List Nat) (u : Nat) (h : l.Nodup) : (pushNew l u).Nodup := by
+theorem gc_nodup_pushNew (l : List Nat) (u : Nat) (h : l.Nodup) : (pushNew l u).Nodup := by
   unfold pushNew
   split
   · exact h
@@ -138,7 +138,7 @@ theorem nodup_two_push (work : List Nat) (a b : Nat) (p q : Bool) (h : work.Nodu
     (if q = true then pushNew (if p = true then pushNew work a else work) b
           else (if p = true then pushNew work a else work)).Nodup := by
   cases p <;> cases q <;> simp only [if_true, if_false, Bool.false_eq_true] <;>
-    first | exact h | exact nodup_pushNew _ _ h | exact nodup_pushNew _ _ (nodup_pushNew _ _ h)
+    first | exact h | exact gc_nodup_pushNew _ _ h | exact gc_nodup_pushNew _ _ (gc_nodup_pushNew _ _ h)
 
 theorem nodup_gcWork (n : Nd) (work : List Nat) (ra rb : Nat) (h : work.Nodup) : (gcWork n work ra rb).Nodup := by
   simp only [gcWork]
